@@ -1,6 +1,8 @@
 import Model.C04.Domain
 import Model.C04.Verdict
 import Model.C04.Verdict2
+import Model.C04.Derived
+import Proofs.C04.Switch
 import Model.C04.Switch
 /-!
 # C04 — the libsecp256k1 and pure-Python backends are observationally identical (DESIGN.md §3 C04)
@@ -12,12 +14,16 @@ arms are tied to M and to each other by the dual-arm streams of harness/c04.py. 
   guard, with the facts its preceding validating statements establish, gives the bindings' documented domain, or the
   call stands inside a handler that translates the bindings' refusal.  Widening a guard, dropping a `% ec.n` /
   `require_on_curve` / `scalar_from_prv_key`, or removing a handler breaks the obligation.
-* **T2** verdict tables: per dual-path API, `py c = bind c` for every class `c` of the finite lattice — or, where the
-  divergence is real (silent-payment scanning of an output that is no x-coordinate), the exact set of classes on which
-  the arms differ, replayed on the real code by the harness under its finding key.  Four more divergences found while
-  building (x outside 0..p-1, hybrid keys, the engine wrapper's high s, ECDH at infinity) were repaired in /repo; their
-  classes stay in the lattice and the theorems now state agreement on them.
-* **T3** the switch writes the flag and nothing else.
+* **T2** verdict tables.  HONEST STATUS: for most APIs `py` and `bind` are two HAND-WRITTEN tables (Model/C04/Verdict*.lean)
+  and `*_agrees` is the bookkeeping of a per-class differential test: the content is that the `verdict.*` streams run one
+  representative input of every class on each arm of the real code and find the table's entry; the Lean equality then
+  only records that no class was found on which the arms differ (for silent-payment scanning: that exactly one was).
+  Deductive content exists for four curve-level entry points (`mult`, `bytes_from_prv_key_int`, `diffie_hellman`,
+  `_tweak_add_var`): their bindings-arm outcome is COMPUTED from the generated guards, the established facts and the
+  C entry point's documented contract (Model/C04/Derived.lean), and proved equal to the Python arm's table
+  (`*_bind_derived_agrees`), and to the hand-written `bind` the streams validate (`*_bind_table_is_derived`).
+* **T3** the switch writes the flag and nothing else: the code fact is `set_serving_writes_only_the_flag` (names read off
+  the AST); lemmas about the hand-written state-machine model are in Proofs/C04/Switch.lean and are not counted here.
 -/
 namespace Props.C04
 open Gen.Backend Gen.BackendSites Btc.C04
@@ -29,7 +35,9 @@ theorem serves_spec (flag ecNot hfOk : Bool) :
     libsecp256k1_serves flag ecNot hfOk = (flag && !ecNot && hfOk) := by
   cases flag <;> cases ecNot <;> cases hfOk <;> rfl
 
-/-- every delegation site: established facts ∧ generated guard → bindings' domain, or the refusal is handled -/
+/-- every delegation site: established facts ∧ generated guard → bindings' domain, or the refusal is handled.
+(At the sites whose call stands inside a handler this is true by the handler alone; what the guard itself gives is
+`domain_from_guard_alone`, and where the handler is really needed `handler_sites_need_their_handler`.) -/
 theorem guard_implies_domain (s : SiteId) (x : Atoms) : siteOK s x = true := by
   cases s <;> simp only [siteOK, pre, served, scalar1, scalar2, point1, point2] <;> unfold_sites <;> grind
 
@@ -38,40 +46,34 @@ theorem unhandled_sites_strict (s : SiteId) (x : Atoms) (h : s.catches = false) 
   revert h
   cases s <;> simp only [siteStrict, pre, served, scalar1, scalar2, point1, point2] <;> unfold_sites <;> grind
 
-/-- coverage, sharper than `unhandled_sites_strict`: outside the twelve listed sites the domain follows from the guard
+/-- coverage, sharper than `unhandled_sites_strict`: outside the thirteen listed sites the domain follows from the guard
 and the established facts alone, handler or not -/
 theorem domain_from_guard_alone (s : SiteId) (x : Atoms) (h : s ∉ handlerNeeded) : siteStrict s x = true := by
   cases s <;> first
     | exact absurd (by decide) h
     | (simp only [siteStrict, pre, served, scalar1, scalar2, point1, point2]; unfold_sites; grind)
 
-/-- and at each of the twelve the handler is really what carries it: the call stands inside one, and an input outside
+/-- and at each of the thirteen (`dsa.sign_` among them: its `pub_key=` goes over as unproven octets) the handler is really what carries it: the call stands inside one, and an input outside
 the domain passes the guard -/
 theorem handler_sites_need_their_handler :
     ∀ s ∈ handlerNeeded, s.catches = true ∧ outsideDomain.any (fun x => !siteStrict s x) = true := by decide
 
-/-- with the switch off no dispatch site delegates; the three exceptions are the INSIDE of a delegation already made
-(an object built, or a helper entered, while the bindings served) -/
-theorem switched_off_no_delegation (s : SiteId) (x : Atoms) (hoff : x.flag = false) (hg : s.guard x = true) :
-    s = .tweak_chain_point__tweak_add ∨ s = .sp_delegated_scan_outputs__prevouts_summary
-      ∨ s = .sp_delegated_scan_outputs__scan_outputs := by
+/-- with the switch off, no site that ASKS THE PREDICATE delegates.  What still delegates: the three held-object sites
+(`_TweakChain.point`, `dsa.Signer.sign_`, `ssa.Signer.sign_` dispatch on an object built while the bindings served —
+the arm is captured at construction, so a Signer built before `set_libsecp256k1_serving(serving=False)` keeps calling
+libsecp256k1), and the two calls inside a delegation already decided.  That the held objects' ANSWERS equal the other
+arm's all the same is not a theorem: it is checked on the real code by the oracle `held_object`. -/
+theorem switched_off_only_held_objects_delegate (s : SiteId) (x : Atoms) (hoff : x.flag = false) (hg : s.guard x = true) :
+    s ∈ heldObjectSites ++ insideSites := by
   revert hg
-  cases s <;> unfold_sites <;> simp [hoff]
+  cases s <;> unfold_sites <;> simp [hoff, heldObjectSites, insideSites]
 
-/-- another curve is never delegated -/
-theorem other_curve_no_delegation (s : SiteId) (x : Atoms) (hec : x.ec_is_secp256k1 = false) (hg : s.guard x = true) :
-    s.source.1 ∉ ["btclib.curves.curve._x_octets", "btclib.curves.curve._is_x_coordinate_var",
-      "btclib.curves.curve._y_even_var", "btclib.curves.curve._multi_mult_x_only_var", "btclib.curves.curve._mult_checked",
-      "btclib.curves.curve.double_mult_var", "btclib.curves.curve._sum_var", "btclib.curves.curve._tweak_add_var",
-      "btclib.curves.curve._TweakChain.__init__", "btclib.curves.curve.multi_mult_var",
-      "btclib.curves.sec_point.bytes_from_prv_key_int", "btclib.curves.sec_point._mult_sec_var",
-      "btclib.curves.sec_point._sec_from_octets", "btclib.ecc.dsa.sign_", "btclib.ecc.dsa.sign_recoverable_",
-      "btclib.ecc.dsa.assert_as_valid_", "btclib.ecc.dsa.recover_pub_keys_", "btclib.ecc.dsa.recover_pub_key_",
-      "btclib.ecc.ssa.sign_", "btclib.ecc.ssa.assert_as_valid_", "btclib.ecc.dh.diffie_hellman",
-      "btclib.ecc.commit_nonce.commit_nonce_", "btclib.ecc.ellswift.create_var", "btclib.ecc.ellswift.encode_var",
-      "btclib.ecc.ellswift.decode_var", "btclib.ecc.ellswift.xdh"] := by
-  revert hg
-  cases s <;> unfold_sites <;> simp [hec, SiteId.source]
+/-- every site that is asked about the caller's curve (`SiteId.takesEc`, emitted by the translator from the argument
+of `_libsecp256k1_serves`) declines another curve -/
+theorem other_curve_no_delegation (s : SiteId) (x : Atoms) (ht : s.takesEc = true) (hec : x.ec_is_secp256k1 = false) :
+    s.guard x = false := by
+  revert ht
+  cases s <;> simp only [SiteId.takesEc] <;> unfold_sites <;> simp [hec]
 
 /-- "scalar in 1..n-1": a residue `m % n` that is not zero is in the bindings' scalar domain -/
 theorem reduced_nonzero_in_range (m n : Int) (hn : 0 < n) (h : m % n ≠ 0) : 1 ≤ m % n ∧ m % n ≤ n - 1 := by
@@ -96,6 +98,21 @@ bindings arm itself still has no answer for it -/
 theorem mult_x_out_of_range_refused_before_dispatch (m : Scalar) :
     Point.requireOnCurve .xOutOfRange = some .errValue ∧ Mult.bind m .xOutOfRange = .errValue := by
   cases m <;> decide
+
+/-- deductive: the bindings-arm outcome computed from the two GENERATED guards of `_mult_checked`, the facts its callers
+establish and the C contract equals the Python arm on every class -/
+theorem mult_bind_derived_agrees (m : Scalar) (q : Point) : Mult.bindDerived m q = Mult.py m q := by
+  cases m <;> cases q <;> decide
+/-- … and is the hand-written table the `verdict.mult` stream validates against the real code -/
+theorem mult_bind_table_is_derived (m : Scalar) (q : Point) : Mult.bind m q = Mult.bindDerived m q := by
+  cases m <;> cases q <;> decide
+theorem pubkey_bind_derived_agrees (q : Scalar) : PubKey.bindDerived q = PubKey.py q ∧ PubKey.bind q = PubKey.bindDerived q := by
+  cases q <;> decide
+theorem dh_bind_derived_agrees (d : Scalar) (q : Point) : Dh.bindDerived d q = Dh.py d q ∧ Dh.bind d q = Dh.bindDerived d q := by
+  cases d <;> cases q <;> decide
+theorem tweak_add_bind_derived_agrees (t : Tweak) (p : Point) :
+    TweakAdd.bindDerived t p = TweakAdd.py t p ∧ TweakAdd.bind t p = TweakAdd.bindDerived t p := by
+  cases t <;> cases p <;> decide
 
 theorem tweak_add_agrees (t : Tweak) (p : Point) : TweakAdd.py t p = TweakAdd.bind t p := by
   cases t <;> cases p <;> rfl
@@ -124,10 +141,6 @@ theorem engine_dsa_agrees (m : MsgLen) (k : EngineDsa.EKey) (s : DsaSig) : Engin
 
 theorem dsa_sign_agrees (q : Scalar) (m : MsgLen) (k : PubArg) : DsaSign.py q m k = DsaSign.bind q m k := by
   cases q <;> cases m <;> cases k <;> rfl
-/-- a signature is only ever produced for a private key in 1..n-1, a 32-byte digest and no key or the signer's own -/
-theorem dsa_sign_value_iff (q : Scalar) (m : MsgLen) (k : PubArg) :
-    DsaSign.bind q m k = .value ↔ (q = .inRange ∧ m = .len32 ∧ (k = .none_ ∨ k = .own)) := by
-  cases q <;> cases m <;> cases k <;> decide
 
 theorem ssa_sign_agrees (q : Scalar) (aux : MsgLen) : SsaSign.py q aux = SsaSign.bind q aux := by
   cases q <;> cases aux <;> rfl
@@ -145,23 +158,13 @@ theorem tap_outpub_agrees (k : Sec) : TapOutPub.py k = TapOutPub.bind k := by ca
 theorem tap_prv_agrees (q : Scalar) : TapPrv.py q = TapPrv.bind q := by cases q <;> rfl
 theorem tap_check_agrees (q : QKey) (c : Control) : TapCheck.py q c = TapCheck.bind q c := by
   cases q <;> cases c <;> rfl
-/-- the commitment check accepts exactly a 32-byte key under a control block that proves it -/
-theorem tap_check_true_iff (q : QKey) (c : Control) : TapCheck.bind q c = .true_ ↔ (q = .len32 ∧ c = .valid) := by
-  cases q <;> cases c <;> decide
 
 theorem bip32_step_agrees (ch : Chain) (i : ChildIndex) (il : IL) : Bip32.py ch i il = Bip32.bind ch i il := by
   cases ch <;> cases i <;> cases il <;> rfl
-/-- a child is answered only for IL < n that does not cancel the parent, and never hardened from a public key -/
-theorem bip32_step_value_iff (ch : Chain) (i : ChildIndex) (il : IL) :
-    Bip32.bind ch i il = .value ↔ (il = .ok ∧ ¬ (ch = .pub ∧ i = .hardened)) := by
-  cases ch <;> cases i <;> cases il <;> decide
 
 theorem musig_partial_verify_agrees (m : MsgLen) (s : PSig) (r : PubNonce) (k : SignerKey) :
     Musig.py s r k = Musig.bind m s r k := by
   cases m <;> cases s <;> cases r <;> cases k <;> rfl
-theorem musig_partial_verify_true_iff (m : MsgLen) (s : PSig) (r : PubNonce) (k : SignerKey) :
-    Musig.bind m s r k = .true_ ↔ (s = .valid ∧ r = .valid ∧ k = .member) := by
-  cases m <;> cases s <;> cases r <;> cases k <;> decide
 
 theorem ellswift_agrees (q : Scalar) (a b : EllLen) (p : Party) (k : Sec) :
     Ell.createPy q = Ell.createBind q ∧ Ell.decodePy a = Ell.decodeBind a ∧ Ell.xdhPy a b p q = Ell.xdhBind a b p q
@@ -183,6 +186,9 @@ theorem engine_ssa_agrees (k : XKey) (s : SsaSig) : EngineSsa.py k s = EngineSsa
 
 theorem tx_verdict_agrees (v : TxVector) : TxVerdict.py v = TxVerdict.bind v := by cases v <;> rfl
 
+/- a zero-padded spelling of the output key is ACCEPTED on both arms (integer comparison; pinned by btclib's tests) -/
+example : TapCheck.py .zeroPadded .valid = .true_ ∧ TapCheck.bind .zeroPadded .valid = .true_
+    ∧ TapCheck.bind .otherValue .valid = .false_ := by decide
 example : TapCheck.bind .len32 .parityFlipped = .false_ ∧ Bip32.py .prv .hardened .cancels = .errValue := by decide
 example : Musig.bind .len32 .valid .valid .foreign = .errValue ∧ Commit.bind .inRange true = .errRuntime := by decide
 
@@ -203,43 +209,6 @@ example : SpScan.py .notX = .value ∧ SpScan.bind .notX = .errValue := by decid
 theorem set_serving_writes_only_the_flag :
     setServingGlobals = ["_libsecp256k1_available"] ∧ setServingAssigned = ["_libsecp256k1_available"] := by
   decide
-
-theorem set_serving_preserves_rest {ρ : Type} (inst b : Bool) (st st' : PkgState ρ)
-    (h : setServing inst b st = .ok st') : st'.rest = st.rest ∧ isServing st' = b := by
-  unfold setServing at h
-  split at h
-  · cases h
-  · cases h; exact ⟨rfl, rfl⟩
-
-theorem set_serving_refusal_is_value_error {ρ : Type} (inst b : Bool) (st : PkgState ρ) :
-    setServing inst b st = .error .value ↔ (b = true ∧ inst = false) := by
-  cases inst <;> cases b <;> simp [setServing]
-
-/-- any history of requests leaves everything but the flag as it was -/
-theorem history_preserves_rest {ρ : Type} (inst : Bool) (st : PkgState ρ) (hist : List Bool) :
-    (runHistory inst st hist).rest = st.rest := by
-  induction hist generalizing st with
-  | nil => rfl
-  | cons b bs ih =>
-    simp only [runHistory]
-    cases hs : setServing inst b st with
-    | error e => exact ih st
-    | ok st' =>
-      rw [ih st']
-      exact (set_serving_preserves_rest inst b st st' hs).1
-
-/-- with the bindings installed the flag after a history is the last request: the dispatch does not depend on
-anything earlier -/
-theorem history_last_wins {ρ : Type} (st : PkgState ρ) (hist : List Bool) (b : Bool) :
-    isServing (runHistory true st (hist ++ [b])) = b := by
-  induction hist generalizing st with
-  | nil => simp [runHistory, setServing, isServing]
-  | cons c cs ih => simp [runHistory, setServing, ih]
-
-/-- two package states with the same flag dispatch identically -/
-theorem serves_reads_flag_only {ρ : Type} (s1 s2 : PkgState ρ) (h : s1.available = s2.available) (e hf : Bool) :
-    serves s1 e hf = serves s2 e hf := by
-  simp [serves, h]
 
 example : isServing (runHistory true (⟨false, ()⟩ : PkgState Unit) [true, false, true]) = true := by decide
 
